@@ -1,5 +1,6 @@
 """C15 — Identifier-indexed lists stay coherent under every list operation."""
 from contracts import c15_dictlist  # noqa  (registers the contracts)
+from contracts import c15_get_by_any as GBA
 from contracts.common import REG
 from bcc import dictlist_native as N
 
@@ -36,12 +37,17 @@ def run(rep):
         "Deductive: every DictList operation under contract is symbolically executed from the real AST of "
         "src/cobra/core/dictlist.py for symbolic (unbounded) lists, indices and identifiers against the representation "
         "invariant WF (list and id index agree in both directions) and the whole new element sequence; raising cases must "
-        "leave list and index unchanged. Bounded stand-in (not counted as proved): exhaustive operation histories on the real "
+        "leave list and index unchanged. get_by_any is proved per argument shape (single int / str / object incl. IndexError / "
+        "KeyError / TypeError; lists of ints / strs / objects whose items are all acceptable): a NEW list of the look-ups in order, "
+        "nothing written; an object item is passed through when its IDENTIFIER is in the index, so a foreign object carrying a "
+        "member's id comes back although it is not a member (finding; the member clause is proved under the hypothesis that the "
+        "object is the member registered under its id). Bounded stand-in (not counted as proved): exhaustive operation histories on the real "
         "class next to a plain-list oracle; it also covers the operations not under contract (slices with steps, masks, "
-        "query, get_by_any, pickle, -, -=) and cross-checks the list/dict axioms against CPython.")
+        "query, get_by_any with lists that raise, pickle, -, -=) and cross-checks the list/dict axioms against CPython.")
     rep.trusted += ["CPython list/dict/set built-ins as axiomatised in pyvc/builtins.py",
                     "z3 5.1 / cvc5 1.0.3 soundness", "pyvc executor (guarded by canaries and native cross-check)"]
     rep.add_pyvc(REG, KEYS, fallback=fallback)
+    rep.add_pyvc(REG, GBA.KEYS, hooks=GBA.HOOKS, fallback=fallback)
     depth = 2 if rep.tier == "quick" else 3
     ev, nt, fails, samples = N.explore_parallel(depth=depth, rich=True)
     rep.add_bounded("dictlist-histories", ev, nt, fails, samples,
